@@ -23,6 +23,9 @@ class Ctx:
         self.fn_seen = set()
         self.cur = None
         self.no_evidence = False
+        self.decided_keys = set()
+        self.skipped_keys = set()
+        self.freeze = False
 
     # ---- rule registration
     def rule(self, rid, desc, floor=1):
@@ -39,9 +42,18 @@ class Ctx:
         if fn is not None:
             self.fn_seen.add(fn.get("mn") or fn.get("qn"))
 
-    def ok(self, what, fn=None, node=None, rid=None):
+    def skipped(self, key, rid=None):
+        """a site outside the rule's fragment (no verdict).  Harmless unless
+        the reference table says it used to be decided."""
+        self.skipped_keys.add(key)
+        rid, r = self._r(rid)
+        r["skipped"] = r.get("skipped", 0) + 1
+
+    def ok(self, what, fn=None, node=None, rid=None, key=None):
         rid, r = self._r(rid)
         r["ok"] += 1
+        if key is not None:
+            self.decided_keys.add(key)
         self.saw(fn)
         if len(r["samples"]) < 4:
             s = what
@@ -49,11 +61,13 @@ class Ctx:
                 s += "  [" + (tree.loc(fn, node) if node is not None else "%s:%s" % (fn["file"], fn["line"])) + "]"
             r["samples"].append(s)
 
-    def bad(self, what, fn=None, node=None, sig=None, rid=None, path=None):
+    def bad(self, what, fn=None, node=None, sig=None, rid=None, path=None, key=None):
         """a violated obligation.  sig: site signature (stable across line
         changes) used to match known findings."""
         rid, r = self._r(rid)
         r["bad"] += 1
+        if key is not None:
+            self.decided_keys.add(key)
         self.saw(fn)
         v = {"rule": rid, "rule_desc": r["desc"], "what": what,
              "pk": fn["pk"] if fn else None,
@@ -118,6 +132,21 @@ def finish(ctx, level_text, assumptions):
         else:
             new_violations.append(v)
         seen_sigs.add(key)
+    # reference table: sites decided on the reference tree must stay decidable
+    refp = os.path.join(VERIF, "tables", "reference", ctx.prop + ".json")
+    if ctx.freeze:
+        os.makedirs(os.path.dirname(refp), exist_ok=True)
+        with open(refp, "w") as fh:
+            json.dump(sorted(ctx.decided_keys), fh, indent=0)
+        print("froze %d decided keys into %s" % (len(ctx.decided_keys), refp))
+    elif os.path.exists(refp):
+        with open(refp) as fh:
+            ref = json.load(fh)
+        lost = [k for k in ref if k not in ctx.decided_keys]
+        for k in lost[:10]:
+            ctx.broken.append("site decided on the reference tree is no longer decidable: %s" % k)
+        if len(lost) > 10:
+            ctx.broken.append("... and %d more reference sites" % (len(lost) - 10))
     # floors
     for rid, r in ctx.rules.items():
         decided = r["ok"] + r["bad"]
@@ -180,7 +209,7 @@ def finish(ctx, level_text, assumptions):
             "rule": "one obligation per (rule instance, matched site, template instantiation); "
                     "non-trivial = the rule's anchor matched and the site was decided (ok or violated)",
             "rules": {rid: {"desc": r["desc"], "floor": r["floor"], "ok": r["ok"], "violated": r["bad"],
-                            "undecided": r["undecided"], "exempt": r["exempt"]} for rid, r in ctx.rules.items()},
+                            "undecided": r["undecided"], "skipped_out_of_fragment": r.get("skipped", 0), "exempt": r["exempt"]} for rid, r in ctx.rules.items()},
             "samples": samples[:40],
             "functions_analysed": len(ctx.fn_seen),
             "units_parsed": len(ctx.db.units()),
